@@ -83,6 +83,12 @@ CHECKS = {
    text="Histories: all single operations over 16 Boolean and 5 value leaves, structured depth-2 combinations (ite/import summaries sharing, not sharing and complementing conditions) and seeded deeper trees of new/apply_bin_op/apply_ite/coalesce/import_into_guard. Three kinds of unsat obligations per node: partition, denotation, guard conversion. Terminals include expressions with non-Boolean operands, linked to their meaning in the query.",
    design_ref="DESIGN.md section 4 C20",
    note="Trusted: BDD::to_expr of the boolean_expression crate (the hook only reads), RefSmt, solver. Three genuine defects of the pinned tree were repaired (fix: ebac2c2, 80a1d6c, 8b04705)."),
+ "C17": dict(
+   technique="self-composition decided by SMT: two copies of an independent reference unrolling that agree on the cone returned by the real analysis must agree on the root - one query for the combinational and init variants, an inductive base + step pair for the full variant (all pairs of executions of any length); sat inductive answers are confirmed by a bounded two-copy unrolling from the initial states",
+   category="translation_validation",
+   text="For every state symbol, init, next, bad, constraint and output expression of generated systems (incl. chains of states linked only through init / only through next / init + hold) the real cone_of_influence{,_init,_comb} is computed and sufficiency is proved by unsat two-copy queries over all valuations/executions. Containment in inputs+states and syntactic tightness are checked against the harness's own dependency-graph reachability (side condition, not a solver query).",
+   design_ref="DESIGN.md section 4 C17",
+   note="Trusted: RefUnroll, RefSmt, z3 5.1. An inductive-step counterexample that no pair of real executions reproduces within 2*|states|+2 steps is counted inconclusive, not reported."),
 }
 ALL = [f"C{i:02d}" for i in range(1, 21)]
 m = {
